@@ -74,6 +74,16 @@ def hex_segments(rings, seg_radius, seg_gap, rotate=False, antialias=True,
             seg += 1
     
     mask = np.asarray(mask)
+
+    if not antialias:
+        # without a gap the edge shared by two neighbors can run exactly
+        # through a row or column of samples. Such a sample belongs to one
+        # segment only
+        claimed = np.zeros(shape, dtype=bool)
+        for seg_mask in mask:
+            seg_mask[claimed] = 0
+            claimed |= seg_mask > 0
+
     if flatten:
         mask = np.sum(mask, axis=0)
     
